@@ -107,5 +107,10 @@ def run(out, tier, seed):
         for kw in [{}] + kw_sets.get(fmt, []):
             jobs.append({"cfg": {}, "events": [{"op": "roundtrip", "fmt": fmt, "shape": "opt:falsy:" + ",".join(sorted(kw)), "before": falsy_graph, "expressible": True, "ser_kw": kw, "prefixes": [["ex", shapes.EX]]}]})
             jobs.append({"cfg": {}, "events": [{"op": "roundtrip", "fmt": fmt, "shape": "opt:rdf-type-objects:" + ",".join(sorted(kw)), "before": type_graph, "expressible": True, "ser_kw": kw, "prefixes": [["ex", shapes.EX]]}]})
+    # the encoding= option of the syntaxes that honour or ignore it today (xml, turtle, nt, n3): characters outside the encoding asked for survive
+    enc_graph = [[S1_, P1_, L_("ń € 名 é \U0001F600")], [S1_, P2_, L_("plain ascii")], [I_("http://ex.example/é"), P1_, L_("ÿ", lang="fr")]]
+    for fmt in ("xml", "turtle", "nt", "n3"):
+        for enc in ("latin-1", "ascii", "utf-16", "utf-8", "cp1252"):
+            jobs.append({"cfg": {}, "events": [{"op": "roundtrip", "fmt": fmt, "shape": "opt:encoding:" + enc, "before": enc_graph, "expressible": True, "ser_kw": {"encoding": enc}, "prefixes": [["ex", shapes.EX]]}]})
     out.exhaustive = not quick
     out.conform(__name__, TRACE, jobs, nontrivial=nontrivial, chunk=400, par=16, heap="2g")
